@@ -755,8 +755,18 @@ static inline void ir2c_fence(void) {}
    Such a run ends here; it counts as reached (witness) and nothing after it is asserted. */
 static inline void ir2c_spin_hint(void) { if (ir2c_in_yield) { __CPROVER_assert(0, "WITNESS end of harness reachable"); __CPROVER_assume(0); } }
 #elif defined(IR2C_SPIN_CUT)
-/* a spinning thread only re-reads; executions in which it spins are equivalent to ones where it arrives later */
-static inline void ir2c_spin_hint(void) { __CPROVER_assume(0); }
+/* a thread that keeps spinning only re-reads, and an execution in which it spins n+1 times is equivalent to one in which it arrives later and
+   spins n times - PROVIDED the loop treats what it reads after a spin like what it reads on arrival.  That proviso is part of what is checked:
+   each thread may spin IR2C_SPIN_BUDGET times (default 1), so the first re-read after a wait is explored in full; only then is the run cut. */
+#ifndef IR2C_SPIN_BUDGET
+#define IR2C_SPIN_BUDGET 1
+#endif
+#ifdef __CPROVER__
+static __CPROVER_thread_local uint32_t ir2c_spins;
+#else
+static _Thread_local uint32_t ir2c_spins;
+#endif
+static inline void ir2c_spin_hint(void) { if (++ir2c_spins > IR2C_SPIN_BUDGET) __CPROVER_assume(0); }
 #else
 static inline void ir2c_spin_hint(void) {}
 #endif
